@@ -47,4 +47,5 @@ func ZzC10Basic() {
 	// scheme not enabled
 	zzAssert(Verify(req, user, pass, []VerifyMethod{VerifyMethodDigestMD5}, "r", "n") != nil, "basic: rejected when Basic is not among the enabled methods")
 	zzCover("password with colon", zzSAt(pass, 0) == ':')
+	zzAssertMustFail(pass != ":", "twin: the password is never a single colon")
 }
